@@ -12,7 +12,7 @@ class PatchError(model.ModelError):
 
 def parse(filename):
     patches = defaultdict(list)
-    with codecs.open(filename, "r", encoding="utf-8") as f:
+    with codecs.open(filename, "r", encoding="utf-8-sig") as f:
         for line in f.readlines():
             if line.strip():
                 words = line.split()
